@@ -109,7 +109,9 @@ fn proto(id: &str, c: &Value) -> Value {
         "udp4" | "udp6" => {
             let sp = u16::from_be_bytes([raw[0], raw[1]]);
             let dp = u16::from_be_bytes([raw[2], raw[3]]);
-            let h = UdpHeader { source_port: sp, destination_port: dp, length: (8 + payload.len()) as u16, checksum: u16::from_be_bytes([raw[6], raw[7]]) };
+            // length field: the real length; jumbograms (RFC 2675) carry 0 and are announced by the case
+            let ulen = c.get("udplen").and_then(|x| x.as_u64()).map(|x| x as u16).unwrap_or((8 + payload.len()) as u16);
+            let h = UdpHeader { source_port: sp, destination_port: dp, length: ulen, checksum: u16::from_be_bytes([raw[6], raw[7]]) };
             hdr = h.to_bytes().to_vec();
             cksoff = 6;
             if what == "udp4" {
@@ -119,8 +121,10 @@ fn proto(id: &str, c: &Value) -> Value {
                 push("UdpHeader::with_ipv4_checksum", UdpHeader::with_ipv4_checksum(sp, dp, &ip, &payload).map(|x| x.checksum as i64).unwrap_or(-1));
                 let mut t = TransportHeader::Udp(h.clone());
                 push("TransportHeader::update_checksum_ipv4", t.update_checksum_ipv4(&ip, &payload).map(|_| t.udp().unwrap().checksum as i64).unwrap_or(-1));
-                let w = UdpHeader::without_ipv4_checksum(sp, dp, payload.len()).unwrap();
-                push("UdpHeader::without_ipv4_checksum.is_zero", if w.checksum == 0 && w.length as usize == 8 + payload.len() { -2 } else { -3 });
+                match UdpHeader::without_ipv4_checksum(sp, dp, payload.len()) {
+                    Ok(w) => push("UdpHeader::without_ipv4_checksum.is_zero", if w.checksum == 0 && w.length as usize == 8 + payload.len() { -2 } else { -3 }),
+                    Err(_) => push("UdpHeader::without_ipv4_checksum.is_zero", if payload.len() > 65527 { -2 } else { -3 }),
+                }
             } else {
                 let ip = Ipv6Header { traffic_class: 0, flow_label: Ipv6FlowLabel::ZERO, payload_length: 0, next_header: ip_number::UDP, hop_limit: 3, source: arr::<16>(&src), destination: arr::<16>(&dst) };
                 push("UdpHeader::calc_checksum_ipv6", res(h.calc_checksum_ipv6(&ip, &payload)));
